@@ -102,6 +102,7 @@ def run_job(job, timeout_ms=10000, second_opinion=False):
         if job.expect == "refuted":
             want = "post" if job.tag.endswith("#vacuity-canary") else "bounds"
             obls = [o for o in obls if o.kind == want]
+        rmode = None
         for o in obls:
             if job.expect == "refuted" and any(r["status"] == "refuted" for r in out["results"]):
                 break
@@ -111,6 +112,27 @@ def run_job(job, timeout_ms=10000, second_opinion=False):
                     r = cvc5_check(o.smt2, timeout_ms // 1000)
                     if r == "unsat":
                         o.status, o.backend = "proved", "cvc5-1.0.3"
+            if o.status == "undecided" and job.contract.float_mode == "UF":
+                # counter-model search under the real-number interpretation of the float operations
+                # (every UF proof covers it; a model there is a genuine counterexample in real arithmetic)
+                if rmode is None:
+                    import copy as _copy
+                    c2 = _copy.copy(job.contract)
+                    c2.float_mode = "R"
+                    try:
+                        ex2 = symex.Exec(f, c2, m, contracts)
+                        rmode = {x.id: x for x in ex2.run()}
+                    except Exception:
+                        rmode = {}
+                o2 = rmode.get(o.id)
+                if o2 is not None:
+                    symex.discharge(o2, timeout_ms)
+                    if o2.status == "undecided":
+                        symex.small_scope(o2)
+                    if o2.status == "refuted":
+                        o.status, o.model = "refuted", o2.model
+                        o.backend = (o2.backend or "z3") + " (real-number interpretation of the UF float operations)"
+                        o.detail = o2.detail
             elif second_opinion and o.status == "proved":
                 s2 = z3.Solver()
                 s2.add(z3.Not(o.formula))
